@@ -7,7 +7,13 @@ keys known from the generated frame:
     before the row ON THE SAME PAGE carries the row's value;
   * a heading is directly followed on the same page by a heading of a deeper level or by a data row;
   * no heading carries '-----'; divider rows are still rendered as data rows;
-  * with subline_by every page carries exactly one heading paragraph, naming the single subline value of its rows.
+  * with subline_by every page carries exactly one heading paragraph, naming the single subline group of its rows
+    (the values of the subline_by columns, ', '-joined; '-----' values are not named, a group of dividers only gets no
+    paragraph).
+Input classes beyond the plain ones: the grouping options COMBINED on one RTFBody — group_by (extra key columns whose
+runs straddle group changes and page breaks / data columns / the page_by columns where they stay in the table) with
+subline_by (1-2 columns, divider groups) and/or page_by (1-3 levels; new_page off, new_page + first_row, new_page +
+column), each column-name argument spelled as list / tuple / bare string.
 Correspondence: the (role, level, text | row) sequence per page of the Lean layout equals the observed one.
 """
 from __future__ import annotations
@@ -19,26 +25,90 @@ MANIFEST = dict(
          "and flag: each level's current value heads the row on the row's own page (page-top re-emission included), "
          "outer before inner, a heading is never stranded, dividers never produce a heading, one subline heading per "
          "page. Tied to the code by observation of sentinel-tagged documents with group runs of every length relative "
-         "to the page capacity.",
+         "to the page capacity, and with the grouping options combined on one RTFBody (group_by x subline_by of 1-2 "
+         "columns x page_by as spanning rows / new_page + first_row / new_page + column, each argument spelled as list, "
+         "tuple or bare string; '-----' subline groups).",
     note="Proved for non-null page_by values (null groups get no heading by design of the code: `if val is None: "
-         "continue`); the property quantifies over sorted key sequences of real values.",
+         "continue`); the property quantifies over sorted key sequences of real values. group_by is role-neutral in the "
+         "model (it blanks cell texts only): documents with group_by are compared with the same LDoc as without it, so a "
+         "group_by that changes a heading or a page cut shows as a failing input / disagreement.",
     technique="Lean 4 proof (invariant over page boundaries with the remembered values) + observation-level correspondence",
     design="7/C05",
 )
 
 RULE = ("sorted hierarchical key sequences with 1-3 page_by levels and/or subline_by, runs of every length relative to "
         "the page capacity, numeric / boolean keys starting at 0 / 0.0 / False, adjacent groups whose key tuples differ while their concatenations coincide, nrow 3..30, new_page on/off, pageby_row column/first_row, pageby_header on/off, all header "
-        "modes, '-----' divider groups; non-trivial = spanning rows shown, ≥ 2 pages and at least one group continuing "
+        "modes, '-----' divider groups (page_by and subline_by); every combination of group_by (none / 1-2 key columns / data "
+        "columns / page_by columns kept in the table) x subline_by (none / 1 / 2 columns) x page_by (none / spanning rows / "
+        "new_page + first_row / new_page + column) on one RTFBody, the three arguments spelled list / tuple / str; non-trivial = spanning rows shown, ≥ 2 pages and at least one group continuing "
         "across a page break or changing mid-page; distinct by (strategy, nrow, per-page block sequence)")
 
 
 class C05(layfamily.Family):
     prop, tag = "C05", "c05"
 
+    BASE = dict(quick=360, thorough=5000)
+    COMBINED = dict(quick=240, thorough=2400)
+    C_STRATEGIES = ["subline_page_by", "subline_page_by_np_first", "subline_page_by_np", "subline", "page_by",
+                    "page_by_np_first", "page_by_np", "subline_page_by"]
+    C_GROUP = ["key", "data", "key2", "page_by_col", None]
+
     def ndocs(self, tier):
-        return 360 if tier == "quick" else 5000
+        t = "quick" if tier == "quick" else "thorough"
+        return self.BASE[t] + self.COMBINED[t]
+
+    def gen_combined(self, rng, j):
+        """the grouping options combined on one body: strategy (8) x group_by kind (5) cycle through all 40 pairs"""
+        strategy = self.C_STRATEGIES[j % 8]
+        group = self.C_GROUP[j % 5]
+        has_sub = strategy.startswith("subline")
+        dividers = rng.random() < 0.5
+        if group == "page_by_col" and strategy == "page_by_np":
+            dividers = False          # group_by refuses a value that comes back ('-----' groups are not contiguous)
+        spec, info = laygen.gen_spec(rng, strategy=strategy, nrow=rng.randint(3, 30), n=rng.randint(1, 45),
+                                     dividers=dividers, long_rows=(j % 5 == 0), group_by=group,
+                                     sublevels=(2 if has_sub and rng.random() < 0.3 else 1),
+                                     subline_dividers=(has_sub and rng.random() < 0.3),
+                                     levels=rng.choice([1, 1, 2, 3]))
+        sp = {}
+        for opt in ("group_by", "page_by", "subline_by"):
+            names = spec["body"].get(opt)
+            if names:
+                how = rng.choice(["list", "list", "tuple", "tuple", "str"])
+                if how == "str" and len(names) != 1:
+                    how = "tuple"
+                sp[f"body.{opt}"] = how
+        spec["spelling"] = sp
+        pb_kind = ("none" if not info["page_by"] else "spanning" if not info["new_page"] else
+                   "np-" + info["pageby_row"])
+        labels = ["combined-doc", f"combined:group_by={info['group_kind']}", f"combined:page_by={pb_kind}",
+                  f"combined:subline_by={len(info['subline_by'] or [])}col",
+                  "combined:group_by=%s+subline_by=%s+page_by=%s" % ("yes" if info["group_by"] else "no",
+                                                                      "yes" if has_sub else "no", pb_kind)]
+        labels += [f"spell:{k2}={v}" for k2, v in sorted(sp.items())]
+        if info["subline_by"] and any(r[spec["df"]["cols"].index(c)] == "-----" for r in spec["df"]["rows"]
+                                      for c in info["subline_by"]):
+            labels.append("combined:subline-divider-group")
+        info["labels"] = sorted(set(labels))
+        return spec, info
+
+    def permute(self, rng, spec, info):
+        # grouping columns need not be stored in the frame in page_by order, nor before the data columns
+        cols = spec["df"]["cols"]
+        order = list(range(len(cols)))
+        rng.shuffle(order)
+        spec["df"]["cols"] = [cols[i] for i in order]
+        spec["df"]["rows"] = [[r[i] for i in order] for r in spec["df"]["rows"]]
+        removed = set(info["removed"])
+        info["displayed"] = [c for c in spec["df"]["cols"] if c not in removed]
 
     def gen(self, rng, k, tier):
+        base = self.BASE["quick" if tier == "quick" else "thorough"]
+        if k >= base:
+            spec, info = self.gen_combined(rng, k - base)
+            if rng.random() < 0.6:
+                self.permute(rng, spec, info)
+            return spec, info
         strategy = ["page_by", "page_by", "page_by_np_first", "page_by_np", "subline", "subline_page_by"][k % 6]
         collide = strategy.startswith("page_by") and k % 4 == 1
         spec, info = laygen.gen_spec(rng, strategy=strategy, nrow=rng.randint(3, 30), n=rng.randint(1, 45),
@@ -95,18 +165,30 @@ class C05(layfamily.Family):
                                 fails.append(f"page {pno}: row {i} has {c}={v!r} but the level-{lvl} heading in force "
                                              f"on this page is {last.get(lvl)!r}")
             if sb and info["n"] > 0:
-                hs = [b for b in blocks if b[0] == "sublineHeading"]
-                vals = {str(rows[b[1]][cols.index(sb[0])]) for b in blocks if b[0] == "data" and b[1] < len(rows)}
-                if len(hs) != 1:
+                # a paragraph that is no title / subline text / footnote / source is a heading paragraph, whatever it shows
+                hs = [b for b in blocks if b[0] in ("sublineHeading", "unknown-para")]
+                si = [cols.index(c) for c in sb]
+                groups = {tuple(str(rows[b[1]][j]) for j in si) for b in blocks if b[0] == "data" and b[1] < len(rows)}
+                if len(groups) != 1:
+                    fails.append(f"page {pno}: its rows belong to {len(groups)} subline groups {sorted(groups)[:4]}")
+                    continue
+                named = [v for v in next(iter(groups)) if v != "-----"]      # a divider value is never named
+                if not named:
+                    if hs:
+                        fails.append(f"page {pno}: a '-----' subline group produced the heading paragraph {hs[0][1]!r}")
+                elif len(hs) != 1:
                     fails.append(f"page {pno}: {len(hs)} subline heading paragraphs")
-                elif len(vals) != 1 or hs[0][1] != next(iter(vals)):
-                    fails.append(f"page {pno}: subline heading {hs[0][1]!r} but rows carry subline values {sorted(vals)}")
+                elif hs[0][1] != ", ".join(named):
+                    fails.append(f"page {pno}: subline heading {hs[0][1]!r} but its rows carry the subline group "
+                                 f"{', '.join(named)!r} ({dict(zip(sb, next(iter(groups))))})")
         if sorted(seen) != list(range(info["n"])):
             fails.append(f"not every row is rendered exactly once as a data row (dividers included): {sorted(seen)[:40]}")
         return fails[:5]
 
     def project(self, pages, info):
-        keep = ("heading", "data", "sublineHeading")
+        # blocks nothing explains (a full-width row or a paragraph that is no heading of the document) are compared too:
+        # the model never has them
+        keep = ("heading", "data", "sublineHeading", "unknown-row", "unknown-para", "data-untagged")
         return [[b for b in p if b[0] in keep] for p in pages]
 
     def nontrivial(self, spec, info, ob):
